@@ -162,6 +162,8 @@ class Check(BaseCheck):
             specs.append({'campaign': 'arities', 'seed': seed, 'names': names[i::k], 'sampled': 40 if q else 3000, 'core_only': q})
         for i in range(8):
             specs.append({'campaign': 'scaling', 'i': i, 'k': 8, 'reps': [4, 8, 12, 16, 20, 22, 24, 26] if q else [4, 8, 12, 16, 18, 20, 21, 22, 23, 24, 25, 26, 28]})
+        for i in range(8):
+            specs.append({'campaign': 'content_scaling', 'names': names[i::8], 'lengths': [40, 100] if q else [30, 60, 120, 250], 'reps': [3, 6, 8, 10, 12, 16, 20] if q else [2, 4, 6, 7, 8, 9, 10, 11, 12, 14, 16, 20, 24, 30]})
         for i in range(8 if q else 16):
             specs.append({'campaign': 'faults', 'seed': seed, 'i': i, 'n': 6 if q else 60})
         return specs
@@ -359,6 +361,53 @@ class Check(BaseCheck):
                     break
                 prev = (k, round(dt, 4))
         rec.sample({'formula': '"' + '\\"' * 8, 'what': 'unit repeated k times inside an unterminated token; thread CPU time measured'})
+
+    # ------------------------------------------------------------------ 1c. ... nor with what short text arguments CONTAIN
+    def c_content_scaling(self, spec, rec):
+        """Every supported function on a (pattern, text) pair of the kind that sends a backtracking matcher into exponential work:
+        k wildcards (or a nested quantifier) against a text of m characters that matches all the way and fails at its very end.
+        As in c_scaling the measure is thread CPU time - the matcher is C code and the step counter does not see it - and k grows
+        slowly, so that an exponential is caught at about a second."""
+        import time
+        p = self.mkparser()
+        families = [('stars', lambda k: '*a' * k + 'b'), ('stars-then-class', lambda k: '*a' * k + '[b]'), ('questions-and-stars', lambda k: '?*' * k + 'b'),
+                    ('tilde-stars', lambda k: '*a' * k + '~*'), ('nested-quantifier', lambda k: '(a+)+' + '$' * (k > 99)), ('alternation', lambda k: '(a|aa)+$'), ('repeat', lambda k: '(.*a){%d}' % k)]
+        shapes = ['%s(v_a,v_p)', '%s(v_p,v_a)', '%s(v_l,v_p)', '%s(v_p,v_l,0)', '%s(v_l,v_p,v_l)', '%s(v_n,v_l,v_p)', '%s(v_a,v_p,"x")', '%s(v_p,v_a,1)', '%s(v_l,"<>"&v_p)', '%s(v_n,v_l,v_p,v_l,v_p)']
+        for fn in spec['names']:
+            for fam, mk in families:
+                for shape in shapes:
+                    f = shape % fn
+                    prev = None
+                    for m in spec['lengths']:
+                        text = 'a' * m
+                        hit = False
+                        for k in spec['reps']:
+                            pat = mk(k)
+                            if len(pat) > 64:
+                                break
+                            p.set_variable('v_a', text)
+                            p.set_variable('v_p', pat)
+                            p.set_variable('v_l', [text, text + 'c', 'b'])
+                            p.set_variable('v_n', [1, 2, 3])
+                            t0 = time.thread_time()
+                            got = self.guarded(p, f, 8, {'kind': 'content-scaling', 'function': fn, 'family': fam, 'k': k, 'm': m})
+                            dt = time.thread_time() - t0
+                            rec.count('content_scaling_inputs')
+                            if got is not None and got[1]:
+                                rec.nt((f, fam, k, m))
+                            rec.cov('content_scaling_families', fam)
+                            if dt > rec.series.get('max_cpu_seconds_short_arguments', 0):
+                                rec.series['max_cpu_seconds_short_arguments'] = round(dt, 4)
+                            if dt > self.CPU_LIMIT:
+                                rec.violation('C01/cpu-time-not-bounded-by-argument-length:' + fn, formula=f, pattern=pat, text_length=m, wildcards=k, cpu_seconds=round(dt, 3), previous=prev, family=fam)
+                                hit = True
+                                break
+                            prev = (k, m, round(dt, 4))
+                            if fam in ('nested-quantifier', 'alternation'):
+                                break          # these do not depend on k
+                        if hit:
+                            break
+        rec.sample({'formula': 'COUNTIF(v_l,v_p)', 'v_p': '*a' * 8 + 'b', 'v_l': ['a' * 40, '...'], 'what': 'pattern with k wildcards against an almost-matching text; thread CPU time measured'})
 
     # ------------------------------------------------------------------ 2. functions x arities
     def c_arities(self, spec, rec):
